@@ -50,6 +50,20 @@ class Aw:
         return self.value
 
 
+class FalsyAw(Aw):
+    """an awaitable that is falsy (e.g. a sized handle that is still empty)"""
+
+    def __bool__(self):
+        return False
+
+
+class GrumpyPlain:
+    """a plain (non-awaitable) result whose truth value cannot be determined"""
+
+    def __bool__(self):
+        raise RuntimeError("ambiguous truth value")
+
+
 class AwIter(Aw):
     """awaitable that is ALSO iterable, like asyncio.Future / Task (``__iter__ = __await__``)"""
 
@@ -223,7 +237,7 @@ def sync_cases(draw):
         kinds = st.sampled_from(["plain", "raise"])
     elif flavour == "def-mixed":
         kinds = st.sampled_from(["plain", "coroutine", "object", "raise", "suspending", "futurelike",
-                                 "coroutine-raises"])
+                                 "coroutine-raises", "falsy-awaitable", "grumpy-plain"])
     else:
         kinds = st.sampled_from(["value", "raise"])
     return {"adapter": "sync", "flavour": flavour, "calls": draw(st.lists(kinds, min_size=1, max_size=4)),
@@ -251,6 +265,12 @@ def check_sync(case):
         k, kind = next(calls)
         if kind in ("plain", "raise", "value"):
             return outcome_for(k, kind)
+        if kind == "falsy-awaitable":
+            values[k] = Item(0, k)
+            return FalsyAw(ctx, values[k])
+        if kind == "grumpy-plain":
+            values[k] = GrumpyPlain()
+            return values[k]
         if kind == "coroutine-raises":
             # a plain function returning an awaitable whose await fails
             errors[k] = exc_type(f"call {k}")
